@@ -70,6 +70,7 @@ def kind_of(fn):
 def run(ctx, prog):
     from rules import shift
     shift.run(ctx, prog)
+    shift.run_signext(ctx, prog)
     rule = "R-LADDER"
     it = absint.Interp(prog,
                        emit=("MsgPackSerializer::writeByte", "MsgPackSerializer::writeInteger",
